@@ -90,6 +90,19 @@ def bgNorm (a : List String) : String :=
     (normalize floatNum g n).render fun out =>
       unwords (toString out.length :: out.flatMap fun m => [toString m.index, fbits m.off])
 
+/-! ### schema / layout detection -/
+open Pure.Detect in
+def plantCmd (detect : Int → Int → Int → Bool → Detected) (a : List String) : String :=
+  match a with
+  | [pres, ma, mi, pa, nu] =>
+    match ma.toInt?, mi.toInt?, pa.toInt? with
+    | some ma, some mi, some pa =>
+      let legacy := pres.contains 'L'
+      let db2 := pres.contains 'D'
+      (loadModel detect legacy db2 ma mi pa (nu == "1")).render
+    | _, _, _ => "bad-op args"
+  | _ => "bad-op args"
+
 /-! ### blob codecs -/
 
 def renderRes {α} (f : α → String) (r : Res α) : String := r.render f
@@ -159,6 +172,8 @@ def dispatch (line : String) : String :=
     | "wf.ov", a => wfOv a
     | "wf.spec", a => wfSpec a
     | "bg.norm", a => bgNorm a
+    | "plant", a => plantCmd Gen.Detect.detectGen a
+    | "spec.plant", a => plantCmd Pure.Detect.specDetect a
     | "enc", k :: v => encCmd k v
     | "dec", [k, h] => match parseHexBytes h with
       | some b => decCmd k b | none => "bad-op hex"
